@@ -837,6 +837,12 @@ class Interp:
                 hv = hook(cx, st.targets[0].id, None)  # the spec's model of this (empty) container
                 if hv is not None:
                     v = hv
+        elif isinstance(v, (dict, list)) and not isinstance(v, SVal) and v and len(st.targets) == 1 and isinstance(st.targets[0], ast.Name) and fr.spec is not None and fr.qual == fr.spec.qual:
+            hook = getattr(fr.spec, "container_value", None)  # the spec's model of a freshly built, non-empty list / dict literal
+            if hook is not None:
+                hv = hook(cx, st.targets[0].id, v)
+                if hv is not None:
+                    v = hv
         for t in st.targets:
             self.assign(cx, fr, t, v)
 
